@@ -59,8 +59,20 @@ def vm_slice_obligation(prop="C02"):
     return [o]
 
 
+def cg_obligations(prop="C02"):
+    """the bytecode generator's side of operator semantics: and / or must not evaluate the right operand unconditionally"""
+    obs = []
+    for nm, tok in (("and", "TOKEN_AND"), ("or", "TOKEN_OR")):
+        obs.append(dict(id="%s.cg.shortcircuit.%s" % (prop, nm), prop=prop, harness="harness/cg_logic_h.c", entry="h_shortcircuit",
+                        defines={"VERIF_LOGIC_OP": tok}, include_repo=["src"], unwind=14, object_bits=10,
+                        strength="X(operator) on literal operands (L: bool literal of arbitrary value, R: marker literal); code offset pinned",
+                        functions=["compile_expr[AST_PREFIX_OP and/or]", "emit_op", "patch_jump"], must_have=[r"C02\.cg", r"COVER"],
+                        min_checks=20, timeout=900, weight=30))
+    return obs
+
+
 def obligations(repo):
-    obs = vm_obligations() + vm_float_obligations() + vm_slice_obligation()
+    obs = vm_obligations() + vm_float_obligations() + vm_slice_obligation() + cg_obligations()
     try:
         import c02_native
         obs += c02_native.native_obligations("C02")
